@@ -239,10 +239,10 @@ def _r4(chk: Check, R4: str) -> None:
     n_ctor = n_use = 0
     seen_ctor_nodes, seen_use_nodes = set(), set()
     for p in paths:
-        states = [e for e in p.events if e.kind == 'call' and e.d.get('ctor') and e.resolved == vm and e.depth() == 0]
+        states = [e for e in p.events if e.kind == 'call' and e.d.get('ctor') and e.resolved == vm]
         evals = [e for e in p.events if e.kind == 'call' and isinstance(freeze(e.func), tuple)
                  and freeze(e.func)[0] == 'attr' and freeze(e.func)[2] == 'eval'
-                 and e.resolved is None and e.depth() == 0]
+                 and e.resolved is None]
         for e in evals:
             seen_use_nodes.add(e.node)
             a = e.args
@@ -305,6 +305,40 @@ def _r5(chk: Check, R5: str, rootq: str) -> None:
         charge_q = holders[0]
     root_fi = F.func(charge_q)
     root_nodes = set(ast.walk(root_fi.node))
+    # housekeeping of the state class itself: its constructor fills the fields of the object being built, and its value
+    # protocol (__repr__/__eq__/... and private helpers only they use) reads them; evaluation code never applies that
+    # protocol to a state (R7: the state is handed to child evaluations only)
+    vm = 'smartquery.vm_state.VMState'
+    init_stores, protocol_loads = set(), set()
+    if vm in F.classes:
+        vci = F.cls(vm)
+        PROTOCOL = {'__repr__', '__str__', '__eq__', '__ne__', '__hash__', '__format__', '__reduce__', '__getstate__', '__copy__', '__deepcopy__'}
+        proto = {mn for mn in vci.methods if mn in PROTOCOL}
+        changed = True
+        while changed:
+            changed = False
+            for mn, mnode in vci.methods.items():
+                if mn in proto or mn.startswith('__'):
+                    continue
+                users = set()
+                for m2 in F.modules.values():
+                    if '.ply' in m2.name:
+                        continue
+                    for q2, fi2 in F.functions.items():
+                        if fi2.module is m2 and q2 != vm + '.' + mn and any(
+                                isinstance(x, ast.Attribute) and x.attr == mn for x in ast.walk(fi2.node)):
+                            users.add(q2)
+                if users and all(u.startswith(vm + '.') and u[len(vm) + 1:].split('.')[0] in proto for u in users):
+                    proto.add(mn)
+                    changed = True
+        for mn in proto:
+            protocol_loads.update(x for x in ast.walk(vci.methods[mn]) if isinstance(x, ast.Attribute) and isinstance(x.ctx, ast.Load))
+        init = vci.methods.get('__init__')
+        if init is not None and init.args.args:
+            sp = init.args.args[0].arg
+            for x in ast.walk(init):
+                if isinstance(x, ast.Attribute) and isinstance(x.ctx, ast.Store) and isinstance(x.value, ast.Name) and x.value.id == sp:
+                    init_stores.add(x)
     for m in F.modules.values():
         if '.ply' in m.name or '.gen' in m.name:
             continue
@@ -313,6 +347,12 @@ def _r5(chk: Check, R5: str, rootq: str) -> None:
             if isinstance(n, ast.Attribute) and n.attr in ('ops_evaluated', 'max_ops_evaluated'):
                 store = isinstance(n.ctx, (ast.Store, ast.Del))
                 inside = n in root_nodes
+                if n in init_stores:
+                    chk.ok(R5, 'store %s in %s' % (n.attr, _encl(F, m, n)), where, 'the constructor fills the field of the state being built')
+                    continue
+                if n in protocol_loads:
+                    chk.ok(R5, 'load %s in %s' % (n.attr, _encl(F, m, n)), where, 'value protocol of the state class (repr/eq), not used by evaluation code')
+                    continue
                 if n.attr == 'ops_evaluated':
                     if store:
                         chk.require(inside, R5, 'store ops_evaluated in %s' % _encl(F, m, n), where,
